@@ -246,8 +246,8 @@ class PatchedSumWeights(BinwisePatchwiseArray):
 
         return (
             self.binning == other.binning
-            and np.array_equal(self.sum_weights1, other.sum_weights1)
-            and np.array_equal(self.sum_weights2, other.sum_weights2)
+            and np.array_equal(self.sum_weights1, other.sum_weights1, equal_nan=True)
+            and np.array_equal(self.sum_weights2, other.sum_weights2, equal_nan=True)
             and self.auto == other.auto
         )
 
@@ -420,7 +420,7 @@ class PatchedCounts(BinwisePatchwiseArray):
 
         return (
             self.binning == other.binning
-            and np.array_equal(self.counts, other.counts)
+            and np.array_equal(self.counts, other.counts, equal_nan=True)
             and self.auto == other.auto
         )
 
